@@ -62,6 +62,9 @@ func runThrottle(sc thrScen, idx int) (map[string]any, error) {
 		rate, burst = trate/sc.Conns, tburst
 	}
 	slen := burst + rate*12/10
+	if rate == 0 {
+		slen = 3000 // no limit configured (latency only)
+	}
 	if slen > 60000 {
 		slen = 60000
 	}
